@@ -178,6 +178,11 @@ EXPORT errno_t _asctime_s_chk(char *dest, rsize_t dmax, const struct tm *tm,
 #endif
             return -1;
         }
+#ifdef SAFECLIB_STR_NULL_SLACK
+        /* the result is already in dest: null the slack behind it */
+        len = strnlen(dest, dmax);
+        memset(dest + len, 0, dmax - len);
+#endif
     } else {
         char tmp[120];
         buf = asctime_r(tm, (char *)&tmp);
